@@ -13,7 +13,7 @@ ENCRYPT_SCRIPT = os.path.join(core.REPO, "ncs", "encrypt_script.py")
 KMS_SCRIPT = os.path.join(core.REPO, "ncs", "basic_kms.py")
 HASH = {"sha-256": -16, "sha-384": -43, "sha-512": -44, "shake128": -18, "shake256": -45}
 KIDS = [0, 1, 23, 24, 255, 256, 65535, 65536, 2 ** 31, 2 ** 32 - 1, 0x40000000]
-SIZES = [0, 1, 15, 16, 17, 31, 32, 33, 300, 4096, 65537]
+SIZES = [0, 1, 15, 16, 17, 31, 32, 33, 300, 4095, 4096, 4097, 8192, 16384, 65535, 65536, 65537, 131072, 196608]
 
 
 def load_module(path, name):
